@@ -10,7 +10,7 @@ from harness.worker import Stream
 OBLIGATIONS = [
     "PgmVerif.C12_extension_sound", "PgmVerif.C12_cpdag_directed_sound", "PgmVerif.C12_class_members", "PgmVerif.isAcyclicG_sound",
     "PgmVerif.C12_adjacent_never_separated", "PgmVerif.C12_parents_separate", "PgmVerif.C12_nonadjacent_separable",
-    "PgmVerif.C12_toDag_acyclic", "PgmVerif.C12_toDag_keeps_directed", "PgmVerif.C12_toDag_only_orients", "PgmVerif.C12_meek_rules_sound",
+    "PgmVerif.C12_toDag_acyclic", "PgmVerif.C12_toDag_keeps_directed", "PgmVerif.C12_toDag_only_orients", "PgmVerif.C12_toDag_orients_all", "PgmVerif.C12_meek_rules_sound",
 ]
 PARTIAL = ["the graph-theoretic core of skeleton exactness is proved for every DAG (a true edge is never separable; the parents of one end point "
            "separate every non-adjacent pair); that the level-wise loops of the three variants enumerate those parent sets is not modelled; "
